@@ -16,7 +16,8 @@ func init() {
 				"(1) every path to the translator call carries, in every conjunct of its reaching condition, 'watch != nil', 'not IN_IGNORED' and 'not IN_UNMOUNT' for this record; the extracted translator table (C15) has no row for IN_IGNORED, IN_UNMOUNT, IN_Q_OVERFLOW or IN_ISDIR; " +
 				"(2) the channel send is control-dependent on Op != 0; " +
 				"(3) every event-send call reachable in production configuration is the one in the decode loop, its argument is this iteration's handler result, and the Name operand of the translator is watch.path or watch.path+\"/\"+entry for the watch looked up by this record's Wd; " +
-				"(4) Remove deletes the wd-table entry and the handler looks the wd up under the same mutex, the lookup and its nil test preceding every other effect of the handler. " +
+				"(4) Remove deletes the wd-table entry and the handler looks the wd up under the same mutex, the lookup and its nil test preceding every other effect of the handler; " +
+				"(5) re-adding a listed path whose descriptor changed releases the old entry and kernel watch on every path (otherwise changes to the old file keep being reported under a name that no longer denotes it). " +
 				"Not decided: that the change really happened (kernel); events the kernel queued before Remove returned.",
 			Rule:        "obligations per translator call, per event-send site, per name origin edge, per handler effect; non-trivial = construct exists",
 			Assumptions: []string{"go/types + go/ssa", "C15 table extraction", "production folding (E-F) re-verified each run"},
@@ -102,6 +103,10 @@ func runC02(p *Program, e *Engine, r *Result, tier string) {
 
 	// (4) Remove => silence
 	c02RemoveSilence(a, df, hv, hctx)
+	// (5) a listed path that now names another file does not keep reporting the old file under that name
+	if tf := findTables(a); tf != nil {
+		c04Replace(a, tf, ro.API["AddWith"], "C02.5")
+	}
 }
 
 func c02Origins(a *An, df *DecodeFacts, tr *extracted, trCall *Visit, hctx *Ctx) {
